@@ -4,7 +4,7 @@ import os
 
 from hypothesis import strategies as st
 
-from .. import capture, codec, env, poison, reftdf, specs
+from .. import capture, codec, container, env, poison, reftdf, specs
 from ..core import Sub
 from .c06 import sec_of
 
@@ -489,7 +489,151 @@ def run_sweep(ctx, case):
     ctx.case(case, True, labels=[f"sweep:{t}"])
 
 
+# ---------------------------------------------------------------------------------------
+def enum_through_container(tier):
+    """each block type (two labelled items, non-ASCII text; short and long labels) in a file, every don't-care byte of the block AND of the
+    header / table overwritten, then stored again through the container - the read-and-store-again idiom: tdf.x = tdf.x, replace_block(block),
+    remove_block + add_block - next to the same on the zero-filled twin"""
+    for spec in _sweep_block_specs() + _sweep_block_specs(long_labels=True):
+        name = spec["t"]
+        vias = ["replace", "remove-add"] + (["setter"] if name in container.SETTERS and name in container.GETTERS else [])
+        for kind in ("random", "ff", "text", "small-int", "cstring", "partial:random"):
+            for via in vias:
+                for behind in (False, True):
+                    yield {"spec": spec, "fill": [kind, 1 + len(via)], "via": via, "behind": behind}
+
+
+def run_through_container(ctx, case):
+    from basictdf import Tdf
+    from basictdf.tdfBlock import BlockType
+
+    spec, (kind, seed), via = case["spec"], case["fill"], case["via"]
+    name = spec["t"]
+    code = reftdf.TYPE_CODE[name]
+    canonical, bspans = reftdf.encode(spec, with_spans=True)
+    scr_block, changed = scramble(canonical, bspans, kind, seed)
+    d = env.fresh_dir()
+    try:
+        stored = {}
+        for twin, payload in (("zero-filled", canonical), ("scrambled", scr_block)):
+            blocks = [{"type": code, "format": spec["format"], "payload": payload, "comment": "the block", "cdate": 5, "mdate": 6, "adate": 7}]
+            if case["behind"]:
+                blocks.append({"type": 14, "format": 1, "payload": bytes(range(200)), "comment": "something behind it", "cdate": 1, "mdate": 2, "adate": 3})
+            image, spans = reftdf.build_image(4, blocks, dates=[1, 2, 3], with_spans=True)
+            if twin == "scrambled":
+                image, ch2 = scramble(image, spans, kind, seed + 1)
+            path = os.path.join(d, twin + ".tdf")
+            with open(path, "wb") as f:
+                f.write(image)
+
+            def again():
+                t = Tdf(path)
+                with t.allow_write() as w:
+                    if via == "setter":
+                        setattr(w, container.SETTERS[name], getattr(w, container.GETTERS[name]))
+                    elif via == "replace":
+                        w.replace_block(w.get_block(BlockType(code)))
+                    else:
+                        blk = w.get_block(BlockType(code))
+                        w.remove_block(BlockType(code))
+                        w.add_block(blk, "the block")
+            ok, _ = ctx.must(again, f"{name}/{via}/store-again-{twin}", f"storing the {name} block just decoded from the file again ({via}, {twin} file)")
+            if not ok:
+                return
+            data = open(path, "rb").read()
+            parsed = reftdf.parse_container(data)
+            ent = [e for _, e in reftdf.live(parsed) if e["type"] == code]
+            if len(ent) != 1:
+                ctx.fail(f"{name}/{via}/block-count", f"after storing the {name} block again ({via}, {twin} file) the table holds {len(ent)} blocks of that type")
+            stored[twin] = data[ent[0]["offset"]:ent[0]["offset"] + ent[0]["size"]]
+        a, b = stored["zero-filled"], stored["scrambled"]
+        if a != b:
+            i = next((k for k in range(min(len(a), len(b))) if a[k] != b[k]), min(len(a), len(b)))
+            ctx.fail(f"{name}/{via}/stored-again-bytes-depend-on-dont-care-bytes",
+                     f"{name}: two files that differ only in don't-care bytes (filler {kind}); after `{via}` of the block just decoded from each, the stored blocks differ "
+                     f"({len(a)} vs {len(b)} bytes, first difference at byte {i}): the re-encoding is not identical")
+        if len(b) != len(canonical):
+            ctx.fail(f"{name}/{via}/stored-again-size", f"{name}: the block stored again has {len(b)} bytes, the original {len(canonical)}")
+    finally:
+        env.rmdir(d)
+    ctx.case(case, bool(changed), labels=[name, f"via={via}", f"fill={kind}", "behind" if case["behind"] else "last"])
+
+
+READER_ENCODINGS = [None, "windows-1252", "cp1252", "latin-1", "iso8859-15", "ascii", "cp437", "mac-roman", "utf-8", "utf8", "UTF-8", "U8", "utf_8"]
+
+
+def enum_reader(tier):
+    """the fixed-width string reader itself (BTSString.read / bread) with each value of its public `encoding` argument under which the
+    terminator is a single zero byte: the text is what lies in front of the first NUL, whatever follows it"""
+    for enc in READER_ENCODINGS:
+        for size in (1, 2, 4, 32, 256):
+            for how in ("read", "bread", "read-positional"):
+                yield {"encoding": enc, "size": size, "how": how}
+
+
+def run_reader(ctx, case):
+    import io
+
+    from basictdf.tdfTypes import BTSString
+
+    enc, size, how = case["encoding"], case["size"], case["how"]
+    codec = enc or "windows-1252"
+    texts = ["", "a", "Ab 1", "label_07", "x" * (size - 1), "x" * size]
+    if codec.lower().replace("_", "-") not in ("ascii",):
+        texts += ["\u00e9t\u00e9", "\u00fc" * max(0, (size - 1) // 2)]
+    n = 0
+    for text in texts:
+        try:
+            raw = text.encode(codec)
+        except UnicodeEncodeError:
+            continue
+        if len(raw) > size or b"\x00" in raw:
+            continue
+        room = size - len(raw) - 1
+        if room < 0:
+            fields = {"no-terminator": raw}
+        else:
+            fields = {"zeros": raw + b"\x00" + b"\x00" * room}
+            for kind in ("ff", "random", "text", "cstring", "float-special", "negative-int", "adversarial", "wide"):
+                for seed in (1, 2):
+                    fields[f"{kind}/{seed}"] = raw + b"\x00" + filler_bytes(kind, seed, room)
+            fields["utf8-lead-byte"] = raw + b"\x00" + (b"\xc3" * room)
+            fields["utf8-continuation"] = raw + b"\x00" + (b"\x80\xbf" * room)[:room]
+            fields["cp1252-undefined"] = raw + b"\x00" + (b"\x81\x8d\x8f\x90\x9d" * room)[:room]
+        for fname, field in fields.items():
+            def call():
+                if how == "bread":
+                    f = io.BytesIO(b"\x11" * 3 + field + b"\x22" * 3)
+                    f.seek(3)
+                    r = BTSString.bread(f, size) if enc is None else BTSString.bread(f, size, encoding=enc)
+                    return r, f.tell() - 3
+                if how == "read-positional" and enc is not None:
+                    return BTSString.read(size, field, enc), size
+                return (BTSString.read(size, field) if enc is None else BTSString.read(size, field, encoding=enc)), size
+            n += 1
+            ctx.evaluations += 1
+            ok, res = ctx.must(call, f"reader/{how}/raises-with-filler-{fname.split('/')[0]}", f"BTSString.{how}(size={size}, encoding={enc!r}) of {text!r} + NUL + {fname} filler")
+            if not ok:
+                continue
+            got, used = res
+            if got != text:
+                ctx.fail(f"reader/{how}/text-depends-on-filler-{fname.split('/')[0]}", f"BTSString.{how}(size={size}, encoding={enc!r}): field holding {text!r}, a NUL and "
+                                                                                      f"{fname} filler reads {got[:40]!r}")
+            if used != size:
+                ctx.fail(f"reader/{how}/consumed", f"BTSString.bread(size={size}) consumed {used} bytes")
+    ctx.case(case, n > 6, labels=[f"encoding={enc}", f"size={size}", how])
+
+
 SUBS = [
+    Sub("through-the-container", run_through_container, kind="enum", enumerate=enum_through_container, shards=(8, 16),
+        rule="nine block types (two labelled items, non-ASCII text, short and long labels) in a 4-slot file, every don't-care byte of block, header and table overwritten with "
+             "6 filler kinds, then stored again through the container (tdf.x = tdf.x / replace_block(get_block) / remove_block + add_block; last block or one behind it) "
+             "next to the same on the zero-filled twin: the stored blocks are identical and of the original size; finite, enumerated", nontrivial_required=False),
+    Sub("string-reader-encodings", run_reader, kind="enum", enumerate=enum_reader, shards=(4, 8),
+        rule="BTSString.read / bread called directly with each value of the public encoding argument under which the terminator is one zero byte (default, cp1252 spellings, "
+             "latin-1, iso8859-15, ascii, cp437, mac-roman, five spellings of utf-8) x field sizes {1,2,4,32,256} x texts (empty, short, size-1, size, non-ASCII) x 19 "
+             "fillers behind the terminator (incl. invalid UTF-8, cp1252-undefined bytes): the text in front of the first NUL comes back; finite, enumerated",
+        nontrivial_required=False),
     Sub("container-lone-word", run_lone, kind="enum", enumerate=enum_lone, shards=(8, 16),
         rule="two fixed images (N=3, N=14): each reserved header word, each entry pad word and the first comment-tail words set ONE AT A TIME to each of 19 plausible small values; finite, enumerated"),
     Sub("pad-word-sweep", run_sweep, kind="enum", enumerate=enum_sweep, shards=(8, 16),
